@@ -29,6 +29,13 @@
 (*                          trusts it in later rebuilds - a candidate that got *)
 (*                          other bytes of the same length in between is then  *)
 (*                          placed although nothing of it verifies (seed R23)  *)
+(*   Variant "guardleak"  : the directory listing keeps a process-wide set of  *)
+(*                          directories "being listed" (a symlink-cycle guard) *)
+(*                          and takes a directory out again only when its      *)
+(*                          listing ends normally: a create that fails on a    *)
+(*                          dangling link below r/d leaves r (and r/d) in the   *)
+(*                          set, and every later listing of them is empty      *)
+(*                          (seed R28-C09)                                     *)
 (* hist is a history variable (excluded from the fingerprint by VIEW) used to  *)
 (* emit behaviours for replay with -simulate.                                  *)
 EXTENDS Core, TLC, FiniteSetsExt
@@ -42,10 +49,12 @@ Absent == -1
 Under(t) == CASE t = "r" -> Files [] t = "r/d" -> {"b", "c"} [] t = "r/a" -> {"a"}
 
 VARIABLES fs, gen, stamp, memo, hc, idx, metas, last, nops, hist, cwd,
+          link,     \* a dangling symbolic link r/d/zz exists: listing r or r/d raises (in a fresh process too)
+          stuck,    \* "guardleak": directories left in the guard set by a listing that ended in an exception
           made,     \* what the metafile of each target records: file -> <<size, generation>> (<<-1, -1>>: not listed)
           rc        \* "rootcache": candidate file -> the (size, generation) its remembered root was computed from
-vars == <<fs, gen, stamp, memo, hc, idx, metas, last, nops, hist, cwd, made, rc>>
-View == <<fs, gen, stamp, memo, hc, idx, metas, last, nops, cwd, made, rc>>
+vars == <<fs, gen, stamp, memo, hc, idx, metas, last, nops, hist, cwd, made, rc, link, stuck>>
+View == <<fs, gen, stamp, memo, hc, idx, metas, last, nops, cwd, made, rc, link, stuck>>
 
 Present(f) == fs[f] # Absent
 TargetExists(t) == IF t = "r/a" THEN Present("a") ELSE TRUE
@@ -113,9 +122,12 @@ Step == nops < MaxOps /\ nops' = nops + 1
 \* al: piece alignment requested (padding entries; only the v1 creator honours it) - the padding buffers of
 \* the hasher are one more thing that must not survive from one create to the next
 NotListed == <<-1, -1>>
-Create(t, v, pl, route, al) == /\ Step /\ TargetExists(t) /\ FreshListing(t) # {}
+Blocked(t) == link /\ t # "r/a"               \* the listing of t meets the dangling link
+DirsOf(t) == CASE t = "r" -> {"r", "r/d"} [] t = "r/d" -> {"r/d"} [] OTHER -> {}
+Create(t, v, pl, route, al) == /\ Step /\ TargetExists(t) /\ FreshListing(t) # {} /\ ~Blocked(t)
                 /\ last' = [op |-> "create", want |-> FreshCreate(t),
-                            got |-> IF cwd = "moved" THEN [kind |-> "error", files |-> {}, sizes |-> <<>>, gens |-> <<>>] ELSE ToolCreate(t)]
+                            got |-> IF cwd = "moved" \/ (Variant = "guardleak" /\ t \in stuck)
+                                    THEN [kind |-> "error", files |-> {}, sizes |-> <<>>, gens |-> <<>>] ELSE ToolCreate(t)]
                 /\ made' = (LET g == last'.got IN
                             IF g.kind = "meta"
                             THEN [made EXCEPT ![t] = [f \in Files |-> IF f \in g.files THEN <<g.sizes[f], g.gens[f]>> ELSE NotListed]]
@@ -128,15 +140,21 @@ Create(t, v, pl, route, al) == /\ Step /\ TargetExists(t) /\ FreshListing(t) # {
                                                 THEN [has |-> TRUE, size |-> fs[f], stamp |-> stamp[f], gen |-> gen[f]] ELSE hc[f]]
                           ELSE hc)
                 /\ Log([op |-> "create", target |-> t, version |-> v, plen |-> pl, route |-> route, align |-> al])
-                /\ UNCHANGED <<fs, gen, stamp, idx, cwd>>
+                /\ UNCHANGED <<fs, gen, stamp, idx, cwd, link, stuck>>
 \* a create that cannot succeed - the directory holds no file any more, or the single file is gone - fails the
 \* same way in a fresh process and must leave nothing behind in this one (no cache entry, no changed working
 \* directory: the operations that follow name their paths relative to it)
-CreateFail(t, v) == /\ Step /\ (~TargetExists(t) \/ FreshListing(t) = {})
+CreateFail(t, v) == /\ Step /\ (~TargetExists(t) \/ FreshListing(t) = {} \/ Blocked(t))
+                    /\ stuck' = (IF Variant = "guardleak" /\ Blocked(t) THEN stuck \cup DirsOf(t) ELSE stuck)
                     /\ last' = [op |-> "createfail", got |-> "error", want |-> "error"]
                     /\ Log([op |-> "createfail", target |-> t, version |-> v])
                     /\ cwd' = (IF Variant = "cwdleak" /\ TargetExists(t) /\ v = 1 THEN "moved" ELSE cwd)
-                    /\ UNCHANGED <<fs, gen, stamp, memo, hc, idx, metas, made, rc>>
+                    /\ UNCHANGED <<fs, gen, stamp, memo, hc, idx, metas, made, rc, link>>
+\* the environment puts a dangling symbolic link into r/d / takes it away again
+SetLink(b) == /\ Step /\ link # b /\ link' = b
+              /\ last' = [op |-> "none", got |-> 0, want |-> 0]
+              /\ Log([op |-> IF b THEN "addlink" ELSE "dellink"])
+              /\ UNCHANGED <<fs, gen, stamp, memo, hc, idx, metas, cwd, made, rc, stuck>>
 Mutate(kind, f) ==
     /\ Step
     /\ CASE kind = "add"     -> ~Present(f) /\ \E s \in 0 .. MaxSize : fs' = [fs EXCEPT ![f] = s] /\ gen' = gen
@@ -150,12 +168,12 @@ Mutate(kind, f) ==
     /\ stamp' = (IF Variant = "statcache" /\ kind # "rewritekeep" THEN [stamp EXCEPT ![f] = (stamp[f] + 1) % 4] ELSE stamp)
     /\ last' = [op |-> "none", got |-> 0, want |-> 0]
     /\ Log([op |-> kind, file |-> PathOf(f), size |-> fs'[f]])
-    /\ UNCHANGED <<memo, hc, idx, metas, cwd, made, rc>>
+    /\ UNCHANGED <<memo, hc, idx, metas, cwd, made, rc, link, stuck>>
 \* operations on an existing metafile: no process-lifetime state is involved
 Use(kind, t) == /\ Step /\ t \in metas /\ (kind = "recheck" => TargetExists(t) \/ t # "r/a")
                 /\ last' = [op |-> kind, got |-> 0, want |-> 0]
                 /\ Log([op |-> kind, target |-> t])
-                /\ UNCHANGED <<fs, gen, stamp, memo, hc, idx, metas, cwd, made, rc>>
+                /\ UNCHANGED <<fs, gen, stamp, memo, hc, idx, metas, cwd, made, rc, link, stuck>>
 \* rebuild searches the directories it is given: the content root itself ("own"), an empty directory,
 \* a directory holding a copy of r/a only ("part"), or one holding same-named, same-sized files with OTHER content
 \* ("decoy": every candidate is hashed and rejected, nothing is found); what it can find is what is there NOW
@@ -176,18 +194,20 @@ Rebuild(t, search) ==
               THEN [f \in Files |-> IF f \in Avail(search) /\ ~RootHit(f) THEN [has |-> TRUE, size |-> fs[f], gen |-> gen[f]] ELSE rc[f]]
               ELSE rc)
     /\ Log([op |-> "rebuild", target |-> t, search |-> search])
-    /\ UNCHANGED <<fs, gen, stamp, memo, hc, metas, cwd, made>>
+    /\ UNCHANGED <<fs, gen, stamp, memo, hc, metas, cwd, made, link, stuck>>
 
 Init == /\ fs \in [Files -> {Absent, 1}] /\ gen = [f \in Files |-> 0] /\ stamp = [f \in Files |-> 0]
         /\ hc = [f \in Files |-> NoHash] /\ idx = {}
         /\ memo = [k \in {"r", "r/d", "r/a", "r/d/b", "r/d/c"} |-> NoEntry]
         /\ metas = {} /\ last = [op |-> "none", got |-> 0, want |-> 0] /\ nops = 0 /\ cwd = "base"
+        /\ link = FALSE /\ stuck = {}
         /\ made = [t \in Targets |-> [f \in Files |-> NotListed]]
         /\ rc = [f \in Files |-> [has |-> FALSE, size |-> 0, gen |-> 0]]
         /\ hist = <<[op |-> "init", fs |-> fs]>>
 Next == \/ \E t \in Targets, v \in 1 .. 3, pl \in 1 .. 2, rt \in {"lib", "cli", "clitracker", "cliconfig"}, al \in BOOLEAN :
               Create(t, v, pl, rt, al /\ v = 1)
         \/ \E t \in Targets, v \in 1 .. 3 : CreateFail(t, v)
+        \/ \E b \in BOOLEAN : SetLink(b)
         \/ \E k \in {"add", "delete", "grow", "shrink", "rewrite", "rewritekeep"}, f \in Files : Mutate(k, f)
         \* ("magnetv": the same through the command line with -v, which configures logging for the rest of the process)
         \/ \E k \in {"recheck", "magnet", "magnetv", "edit"}, t \in Targets : Use(k, t)
